@@ -74,6 +74,8 @@ func cmdMain(args []string) int {
 		return cmdCheck(args[1:])
 	case "names":
 		return cmdNames(args[1:])
+	case "snapshot-locals":
+		return cmdSnapshotLocals(args[1:])
 	}
 	fmt.Fprintln(os.Stderr, "unknown command", args[0])
 	return 2
